@@ -518,8 +518,9 @@ def run(chk, prog):
         if acc and acc[0].args[0] is not None and acc[0].loops:
             L = acc[0].loops[0]
             v = acc[0].args[0]
-            fs = sp.Function("size")(sp.Symbol(str(fill).replace(" ", ""), real=True))
-            ok = sp.simplify(v - (fs - 1 - L.sym)) == 0 and L.lo == 0 and L.hi is not None and sp.simplify(L.hi - fs) == 0
+            # the container is named either by the value the local was initialised with or by the local itself
+            for fs in (sp.Function("size")(sp.Symbol(str(fill).replace(" ", ""), real=True)), sp.Function("size")(sp.Symbol("filling", real=True))):
+                ok = ok or (sp.simplify(v - (fs - 1 - L.sym)) == 0 and L.lo == 0 and L.hi is not None and sp.simplify(L.hi - fs) == 0)
     chk.check(ok, "R1", A.loc(mainf, bn[0]) if bn else mainf.where, "main: bucket numbers are n_buckets-1-i for i in [0,n_buckets): they lie in [0, n_buckets-1]", "main:bucket-number-range")
     sb, sps, psb = loc_.get("spacing_bins"), loc_.get("spacing_ps"), loc_.get("ps_bins")
     nbk = loc_.get("nbuckets")
